@@ -114,7 +114,7 @@ func marshal(s reflect.Value, bytes []byte) error {
 						case tByte:
 							value := vre.FindStringSubmatch(tag)
 							if value != nil {
-								v, err := strconv.ParseUint(value[1], 16, 8)
+								v, err := strconv.ParseUint(strings.TrimPrefix(strings.TrimPrefix(value[1], "0x"), "0X"), 16, 8)
 								if err != nil {
 									return err
 								}
@@ -323,7 +323,7 @@ func unmarshal(bytes []byte, s reflect.Value) error {
 				case tByte:
 					value := vre.FindStringSubmatch(tag)
 					if value != nil {
-						v, err := strconv.ParseUint(value[1], 16, 8)
+						v, err := strconv.ParseUint(strings.TrimPrefix(strings.TrimPrefix(value[1], "0x"), "0X"), 16, 8)
 						if err != nil {
 							return err
 						}
